@@ -57,6 +57,8 @@ def run(ctx):
     ]
     match_table(ctx, "C09-R3", f, walk(f), rows, "ConnectingError::with_connect_error")
 
+    shared.connect_stream_run_table(ctx, "C09-R3")
+
     ctx.rule("C09-R4", "waiters: queue closure -> Err(self.result().await); failed open -> NotConnected")
     shared.driver_waiters(ctx, "C09-R4")
 
